@@ -25,9 +25,20 @@ def main(argv=None):
     ap.add_argument('--no-evidence', action='store_true')
     ap.add_argument('--evidence-dir', default=None)
     ap.add_argument('--no-selftest', action='store_true')
+    ap.add_argument('--replay', default=None, help='re-check the single instance recorded in a replay file')
     ap.add_argument('--dump-fails', action='store_true', help='triage aid: print failing instances as JSON lines')
     args = ap.parse_args(argv)
     pid = args.prop.upper()
+    if args.replay:
+        import json
+        try:
+            with open(args.replay) as fd:
+                rp = json.load(fd)
+            args.only = '%s %s' % (rp['rule'], rp['key'])
+            args.no_evidence = True
+        except (OSError, ValueError, KeyError) as e:
+            print('ANALYSIS-ERROR property=%s cannot read replay file: %s' % (pid, e))
+            return 2
     try:
         seed = int(os.environ.get('VERIF_SEED', '0') or 0)
     except ValueError:
